@@ -201,16 +201,23 @@ def run_case(index, rng, tier):
                 else:
                     # faithful open: creator opened => remote announced (DCEP) / both open (negotiated)
                     cobj = chan.obj.get(chan.creator)
+                    other = "B" if chan.creator == "A" else "A"
+                    reused = cobj is not None and (other, cobj.id) in rig.open_on_closing
                     if cobj is not None and cobj.readyState == "open":
-                        other = "B" if chan.creator == "A" else "A"
                         if other not in chan.obj:
-                            rig.violation("lifecycle", "datachannel-missing",
-                                          f"{uid} open on {chan.creator} but no datachannel event on {other}")
+                            rig.violation("lifecycle", "id-reused-while-peer-closing" if reused else "datachannel-missing",
+                                          f"{uid} open on {chan.creator} but no datachannel event on {other}"
+                                          + (" (its OPEN reached the peer while the previous channel on that id was still closing)" if reused else ""))
                     if chan.negotiated and len(chan.obj) == 2 and any(s != "open" for s in states.values()):
                         rig.violation("lifecycle", "negotiated-not-open", f"negotiated {uid} states {states}")
                     if not chan.negotiated and cobj is not None and cobj.readyState == "connecting":
-                        rig.violation("lifecycle", "never-opened", f"{uid} still connecting at quiescence on a connected association",
-                                      diagnostics=rig.diagnostics())
+                        if reused:
+                            rig.violation("lifecycle", "id-reused-while-peer-closing",
+                                          f"{uid} (id {cobj.id}) still connecting at quiescence: its OPEN reached the peer while the "
+                                          "previous channel on that id was still closing there and was ignored")
+                        else:
+                            rig.violation("lifecycle", "never-opened", f"{uid} still connecting at quiescence on a connected association",
+                                          diagnostics=rig.diagnostics())
             by_mech = collections.defaultdict(list)
             for uid, states in stuck_closing:
                 chan = rig.chans[uid]
